@@ -138,6 +138,12 @@ def dir_stream(ctx, n):
             ctx.violation("E4", "dir mode: report is not well-formed XML / missing: " + im.get("junit_error", "missing"), {"dir": sc})
             continue
         check_wellformed(ctx, "dir mode", {"dir": sc}, im["junit"], im["exit"])
+        # grouped into one suite per file: the suites are named by the relative paths of exactly the files that are accounted for
+        # (compared, missing on one side, unsupported or filtered on both sides), each once
+        want = sorted(c12.oracle(sc, im)["classes"])
+        got = sorted(str(s_["name"]) for s_ in im["junit"])
+        if got != want:
+            ctx.violation("E4", f"dir mode: the report's suites {got[:6]} are not one per accounted file {want[:6]}", {"dir": sc})
         ctx.traces_validated += 1
 
 
